@@ -47,7 +47,7 @@ def cases(tier, seed, shard, nshards):
         if MUT_TOOLS[name][0] is None:
             continue
         for n in (0, 1, 3, 4):
-            for at in range(0, n + 2):
+            for at in range(0, n + 2 if name != "cycle" else n + 6):
                 for mutation in MUTATIONS:
                     k += 1
                     if k % nshards == shard:
@@ -111,6 +111,9 @@ MUT_TOOLS = {
     "chain": ([], {}), "zip": ([], {}), "zip_longest": ([], {}), "accumulate": ([None], {"initial": ["item", 0, "init"]}), "filter": ([None], {}),
     "filterfalse": ([None], {}), "map": (["mk"], {}), "takewhile": (["true"], {}), "dropwhile": (["false"], {}),
     "starmap": (None, None), "compress": (None, None),
+    # cycle reads its source ONCE, one position per step, and replays its own copies afterwards: changes made to the
+    # list after the first pass (steps beyond n) must go unnoticed
+    "cycle": ([], {}),
 }
 MUTATIONS = ["append", "append2", "pop", "replace_next", "insert_front", "clear"]
 
